@@ -23,6 +23,10 @@ Without(t, i) == IF i = 0 THEN t ELSE SubSeq(t, 1, i - 1) \o SubSeq(t, i + 1, Le
 DigitsToNat(t) == Strip([i \in 1..Len(t) |-> t[Len(t) + 1 - i] - c0])
 NoUnd(t) == SelectSeq(t, LAMBDA c : c # cUnd)
 
+\* a BigNat as big-endian digit characters ("0" for zero); a ZInt with its sign
+DigitsText(d) == IF d = <<>> THEN <<c0>> ELSE [i \in 1..Len(d) |-> d[Len(d) + 1 - i] + c0]
+ZText(z) == (IF z.s < 0 THEN <<cMinus>> ELSE <<>>) \o DigitsText(z.m)
+
 \* ---------------------------------------------------------------- D: the grammar
 \*   numeral ::= sign? body exponent?
 \*   body    ::= digits and '_' with at most one '.', at least one digit, first non-'.' character a digit
@@ -82,6 +86,14 @@ AlgoAccept(t) ==
      /\ ad[1] = "ok"
      /\ FitsI64(ZSub(ZOfInt(ad[3]), ExpValue(ExpOf(t))))
      /\ BigIntAccepts(ad[2])
+\* which error value the mechanism reports for a rejected string (growth beyond C05: the error classes)
+AlgoErrKind(t) ==
+  IF EPos(t) # 0 /\ ~I128Accepts(ExpOf(t)) THEN "ParseInt"
+  ELSE IF BaseOf(t) = <<>> THEN "Empty"
+  ELSE LET ad == AlgoDigits(BaseOf(t)) IN
+       IF ad[1] # "ok" THEN "Other"
+       ELSE IF ~FitsI64(ZSub(ZOfInt(ad[3]), ExpValue(ExpOf(t)))) THEN "Other"
+       ELSE "ParseBigInt"
 AlgoValue(t) ==
   LET ad == AlgoDigits(BaseOf(t))
       s == ad[2]
